@@ -87,6 +87,13 @@ def gen_program(rng, small=False):
     return prog
 
 
+def norm_item(it):
+    """(payload, side, channel, thread, seq) -> (side, channel, thread, seq, payload)"""
+    if isinstance(it, tuple) and len(it) == 5 and isinstance(it[0], bytes) and not isinstance(it[4], bytes):
+        return (it[1], it[2], it[3], it[4], it[0])
+    return it
+
+
 def pad_bytes(side, c, t, s, size):
     if size == 0:
         return b""
@@ -154,7 +161,11 @@ def run_program(res: Result, lab, prog, label):
         try:
             barrier.wait(10)
             for s, size in enumerate(pads):
-                endpoint.send((side, ci, t, s, pad_bytes(side, ci, t, s, size)))
+                if s % 3 == 2:
+                    # (item layouts vary: the payload bytes come first in every third item)
+                    endpoint.send((pad_bytes(side, ci, t, s, size), side, ci, t, s))
+                else:
+                    endpoint.send((side, ci, t, s, pad_bytes(side, ci, t, s, size)))
         except BaseException as e:  # noqa
             errs.append(f"{side}{ci}.{t}: {type(e).__name__}: {e}")
 
@@ -247,7 +258,7 @@ def run_program(res: Result, lab, prog, label):
         dd = prog["chans"][ci]["dirs"][d]
         side = "L" if d == "l2r" else "R"
         lc, rc, fin = ends[ci]
-        got = [(clk, r, it) for clk, r, it in sorted(col.items)]
+        got = [(clk, r, norm_item(it)) for clk, r, it in sorted(col.items)]
         res.count("items_delivered", len(got))
         want_all = []
         for t, pads in enumerate(dd["pads"]):
@@ -275,7 +286,7 @@ def run_program(res: Result, lab, prog, label):
             if corrupt:
                 res.violation(f"item-payload-corrupted:{col.mode}", f"{label}: channel {ci} {d}: {corrupt[:3]}")
         # order
-        wire = [codec.decode(p, versioned=False) for code, cid, p, *_ in (frames_r if d == "l2r" else frames_l)
+        wire = [norm_item(codec.decode(p, versioned=False)) for code, cid, p, *_ in (frames_r if d == "l2r" else frames_l)
                 if code == codec.MSG["CHANNEL_DATA"] and cid == lc.id]
         if dd["mode"] != "compete":
             if gitems != wire[:len(gitems)] and sorted(gitems) == sorted(want_all):
